@@ -356,6 +356,19 @@ def run_check(check, tier, seed, wall_budget=None):
             print(e)
         return 2
 
+    # optional second engine (e.g. coverage-guided fuzzing): returns extra failing cases and counters
+    extra_info = None
+    if hasattr(check, "extra_engine"):
+        try:
+            extra_info = check.extra_engine(tier, seed, OUT)
+        except sk.HarnessError as he:
+            print("HARNESS ERROR in the second engine of %s: %s" % (cid, he))
+            return 2
+        for (b, params, v) in extra_info.get("failures", []):
+            tot["buckets"].setdefault(b, []).append((len(canon(params)), params, v, extra_info.get("engine", "extra")))
+        tot["evaluations"] += extra_info.get("evaluations", 0)
+        tot["subruns"] += extra_info.get("evaluations", 0)
+
     known = load_known(cid)
     violations = []
     known_hit = {}
@@ -419,6 +432,8 @@ def run_check(check, tier, seed, wall_budget=None):
     }
     if tot["extra"]:
         cov["counters"] = dict(sorted(tot["extra"].items()))
+    if extra_info is not None:
+        cov["second_engine"] = {k: v for k, v in extra_info.items() if k != "failures"}
     if hasattr(check, "coverage_note"):
         cov["explanation"] = check.coverage_note(tier)
     ev = {
